@@ -117,20 +117,20 @@ package keeper
 
 // ---- store layout ----------------------------------------------------------
 
-// abstract key functions (the byte-level definitions and their injectivity /
-// prefix lemmas are the subject of C06; here they are related by axioms)
-//@ spec aKey(id: types.AccountID): str
-//@ spec pKey(id: types.AccountID, pid: str): str
-//@ spec apKey(id: types.AccountID): str
+// byte-level layout of the keys (the key functions are verified against these definitions;
+// the structural lemmas below are proved in the SMT theory of strings, C06)
+//@ spec abstract aKey(id: types.AccountID): str = "" + "\x01" + "/" + id.Scope + "/" + id.XID
+//@ spec abstract pKey(id: types.AccountID, pid: str): str = "" + "\x02" + "/" + id.Scope + "/" + id.XID + "/" + pid
+//@ spec abstract apKey(id: types.AccountID): str = "" + "\x02" + "/" + id.Scope + "/" + id.XID + "/"
 
 //@ func accountKey
-//@   trusted
+//@   uses def:aKey
 //@   ensures result == aKey(id)
 //@ func paymentKey
-//@   trusted
+//@   uses def:pKey
 //@   ensures result == pKey(id, pid)
 //@ func accountPaymentsKey
-//@   trusted
+//@   uses def:apKey
 //@   ensures result == apKey(id)
 
 //@ func (*keeper).GetAccount
@@ -143,9 +143,17 @@ package keeper
 
 // keys of the two record kinds never coincide (first byte 0x01 / 0x02); weight of a
 // record = its recorded coin balance
-//@ spec keyKind(key: str): int
-//@ axiom keyKindAccount: forall id: types.AccountID :: keyKind(aKey(id)) == 1
-//@ axiom keyKindPayment: forall id: types.AccountID, pid: str :: keyKind(pKey(id, pid)) == 2
+//@ spec abstract keyKind(key: str): int = ite(hasPrefix(key, "\x01"), 1, ite(hasPrefix(key, "\x02"), 2, 0))
+//@ lemma keyKindAccount(id: types.AccountID)
+//@   theory strings
+//@   auto
+//@   ensures keyKind(aKey(id)) == 1
+//@   trigger aKey(id)
+//@ lemma keyKindPayment(id: types.AccountID, pid: str)
+//@   theory strings
+//@   auto
+//@   ensures keyKind(pKey(id, pid)) == 2
+//@   trigger pKey(id, pid)
 //@ axiom weightAccount: forall k: str, v: str, d: str :: keyKind(k) == 1 ==>
 //@          storeWeight(k, true, v, d) == ite(decode(types.Account, v).Balance.Denom == d, decode(types.Account, v).Balance.Amount, 0)
 //@ axiom weightPayment: forall k: str, v: str, d: str :: keyKind(k) == 2 ==>
@@ -316,8 +324,17 @@ package keeper
 //@   trigger wfAcct(has, v0, id), recsOK(has, v0, v1, acctOf(v0, id).Balance.Denom)
 
 // structure of payment keys (proved from the byte-level key functions under C06)
-//@ axiom payPrefix: forall id: types.AccountID, pid: str :: hasPrefix(pKey(id, pid), apKey(id))
-//@ axiom pKeyInjPid: forall id: types.AccountID, p1: str, p2: str :: pKey(id, p1) == pKey(id, p2) ==> p1 == p2
+//@ lemma payPrefix(id: types.AccountID, pid: str)
+//@   theory strings
+//@   auto
+//@   ensures hasPrefix(pKey(id, pid), apKey(id))
+//@   trigger pKey(id, pid)
+//@ lemma pKeyInjPid(id: types.AccountID, p1: str, p2: str)
+//@   theory strings
+//@   auto
+//@   requires pKey(id, p1) == pKey(id, p2)
+//@   ensures p1 == p2
+//@   trigger pKey(id, p1), pKey(id, p2)
 // a record found directly under pKey(id, pid) carries exactly these ids
 //@ lemma payIds(has: map[str]bool, val: map[str]str, id: types.AccountID, pid: str)
 //@   requires wfAcct(has, val, id) && has[pKey(id, pid)]
@@ -519,7 +536,7 @@ package keeper
 //@   ensures [conserve] forall d: str :: Mod["escrow"][d] - G[k.skey][d] == old(Mod)["escrow"][d] - old(G)[k.skey][d]
 //@   ensures [stable] stable(old(KVhas)[k.skey], old(KVval)[k.skey], KVhas[k.skey], KVval[k.skey])
 
-//@ property C03 := (*keeper).PaymentWithdraw#*, (*keeper).PaymentCreate#*, (*keeper).AccountClose#*, lemma:payIds, lemma:recsOKTrans, lemma:recsOKRefl, lemma:wfAcctStep, (*keeper).AccountSettle#*, (*keeper).PaymentClose#*, lemma:sumRateFrame, lemma:stableTrans, lemma:stableRefl, (*keeper).doAccountSettle#*, (*keeper).AccountCreate#*, (*keeper).AccountDeposit#*, (*keeper).paymentWithdraw#*, (*keeper).accountWithdraw#*, lemma:openCountMono, lemma:openCountStrict, (*keeper).accountPayments#*, (*keeper).accountOpenPayments#*, (*keeper).GetAccount#*, (*keeper).GetPayment#*, (*keeper).saveAccount#*, (*keeper).savePayment#*
+//@ property C03 := accountKey#*, paymentKey#*, accountPaymentsKey#*, lemma:keyKindAccount, lemma:keyKindPayment, lemma:payPrefix, lemma:pKeyInjPid, (*keeper).PaymentWithdraw#*, (*keeper).PaymentCreate#*, (*keeper).AccountClose#*, lemma:payIds, lemma:recsOKTrans, lemma:recsOKRefl, lemma:wfAcctStep, (*keeper).AccountSettle#*, (*keeper).PaymentClose#*, lemma:sumRateFrame, lemma:stableTrans, lemma:stableRefl, (*keeper).doAccountSettle#*, (*keeper).AccountCreate#*, (*keeper).AccountDeposit#*, (*keeper).paymentWithdraw#*, (*keeper).accountWithdraw#*, lemma:openCountMono, lemma:openCountStrict, (*keeper).accountPayments#*, (*keeper).accountOpenPayments#*, (*keeper).GetAccount#*, (*keeper).GetPayment#*, (*keeper).saveAccount#*, (*keeper).savePayment#*
 
 // C01: funds enter only as deposits debited from the depositor (AccountCreate / AccountDeposit), leave only as
 // payouts of a recorded balance to the record's owner (the two withdraw functions), and every such step keeps
